@@ -501,6 +501,18 @@ func genEvent(seed int64, id int) *Ev {
 			b.Y = e.V.Y
 			b.M = 1 + (e.V.M+r.Intn(3)+10)%12
 		}
+		if r.Intn(5) == 0 { // the time of day decides whether the last unit is complete
+			b.D = e.V.D
+			b.H, b.I, b.S = e.V.H, e.V.I, e.V.S
+			switch r.Intn(4) {
+			case 0:
+				b.I = r.Intn(60)
+			case 1:
+				b.S = r.Intn(60)
+			case 2:
+				b.H = r.Intn(24)
+			}
+		}
 		e.V.US, b.US = 0, 0
 		e.B = &b
 	}
